@@ -7,7 +7,7 @@ ChainAlt == [r |-> {}, s |-> {"r", ""}, l |-> {"s", "r"}]
 StarAlt  == [r |-> {}, s |-> {"r"}, l |-> {"r", "s"}]
 TwoAlt   == [r |-> {}, s |-> {"r"}, l |-> {"", "s"}]
 AnyFlagSets == SUBSET Flags
-AllEnv   == {"Edit", "Touch", "DeleteArt", "Truncate", "StripKey", "Replace", "MakeCsr", "EditProfile", "Expire", "SetIssuer", "RemoveConfig", "AddConfig"}
+AllEnv   == {"Edit", "Touch", "DeleteArt", "Truncate", "StripKey", "ResaveArt", "Replace", "MakeCsr", "EditProfile", "Expire", "SetIssuer", "RemoveConfig", "AddConfig"}
 LeafProfile == {"l"}
 AllFault == {"SignFail", "WriteErr", "WriteTorn", "Die"}
 \* the judgement is made while evaluating the ASSUME of RepoTrace; nothing is left to explore
